@@ -1,0 +1,68 @@
+//go:build verif
+
+package verifhook
+
+import (
+	"math/rand/v2"
+	"runtime"
+)
+
+// Enabled reports whether the instrumentation is compiled in.
+const Enabled = true
+
+// Modes. The mode is a plain variable on purpose: it is written only while no
+// other goroutine runs library code, so that the hooks add no synchronisation
+// (atomics would create happens-before edges and hide races from the detector).
+const (
+	ModeOff   = 0
+	ModeCount = 1 // single goroutine: count steps, enforce Budget
+	ModeYield = 2 // concurrent: no shared state, random runtime.Gosched
+)
+
+var (
+	Mode      int
+	Counts    [NSites]int64
+	Gauges    [NSites]int64
+	Total     int64
+	Budget    int64  // 0 = none; exceeded => panic(BudgetExceeded)
+	YieldProb uint32 // of 1<<16
+)
+
+// BudgetExceeded is the panic value raised when Total passes Budget.
+type BudgetExceeded struct {
+	Site  int
+	Total int64
+}
+
+// Reset clears counters and gauges.
+func Reset() {
+	Counts = [NSites]int64{}
+	Gauges = [NSites]int64{}
+	Total = 0
+}
+
+// Step records one unit of work at the given site.
+func Step(site int) {
+	switch Mode {
+	case ModeCount:
+		Counts[site]++
+		Total++
+		if Budget > 0 && Total > Budget {
+			b := Budget
+			Budget = 0
+			_ = b
+			panic(BudgetExceeded{Site: site, Total: Total})
+		}
+	case ModeYield:
+		if rand.Uint32()&0xffff < YieldProb {
+			runtime.Gosched()
+		}
+	}
+}
+
+// Gauge records the maximum of v seen at the given site.
+func Gauge(site int, v int) {
+	if Mode == ModeCount && int64(v) > Gauges[site] {
+		Gauges[site] = int64(v)
+	}
+}
